@@ -4,7 +4,7 @@
 From stdpp Require Import gmap sets.
 From Coq Require Import ZArith.
 From SV Require Import SM.IdMan SM.IdManProofs SM.IdManSpec SM.IdManSpecProofs SM.IdLife SM.IdLifeProofs
-  SM.IdWorld SM.IdWorldProofs SM.IdNode SM.IdNodeProofs SM.IdFixupHist SM.IdFixupHistProofs SM.IdNest SM.IdNestProofs SM.IdNodeMaps SM.IdNodeMapsProofs Gen.IdSites_gen.
+  SM.IdWorld SM.IdWorldProofs SM.IdNode SM.IdNodeProofs SM.IdFixupHist SM.IdFixupHistProofs SM.IdNest SM.IdNestProofs SM.IdNodeMaps SM.IdNodeMapsProofs SM.IdAllProofs Gen.IdSites_gen.
 Open Scope Z_scope.
 
 (** Release discipline read from the source census (Gen/IdSites_gen.v). *)
@@ -206,10 +206,11 @@ Theorem c08_nested_copy_from_source_refuted :
   let w := trun false false false true false false nested_copy_history in
   live_ids_in 1 (tE w) = [1] ∧ live_ids_in 1 (tS w) = [1; 2; 2] ∧ live_ids_in 1 (tF w) = [1; 2; 2].
 Proof. exact nested_copy_from_source_refuted. Qed.
-(** collapse_one as one event is the fold of the copy() bundles of the instance map's listed brushes, then entities. *)
+(** collapse_one (visgroups kept) as one event is the fold of the copy() bundles of the instance map's visible listed
+    brushes, then its listed entities; without visgroups the copies are in addition made visible. *)
 Theorem c08_nested_collapse_is_copies : ∀ r1 r2 r3 c1 c2 c3 w s m, s ≠ m →
-  tstep r1 r2 r3 c1 c2 c3 w (TCollapse s m) =
-  fold_left (tstep r1 r2 r3 c1 c2 c3) ((λ t, TCopy t m (-1) true) <$> (tlisted_of w s false ++ tlisted_of w s true)) w.
+  tstep r1 r2 r3 c1 c2 c3 w (TCollapse s m true) =
+  fold_left (tstep r1 r2 r3 c1 c2 c3) ((λ t, TCopy t m (-1) true) <$> tcollapse_sources w s true) w.
 Proof. exact tcollapse_is_copies. Qed.
 
 (** Round 3.  Nav-node IDs over several maps (SM/IdNodeMaps.v): after every history of construction / parse with any
@@ -226,3 +227,28 @@ Theorem c08_node_maps_copy_unregistered_refuted :
   let w := mrun false false true false [MCreate 0 (Some 1); MCreate 1 (Some 1); MCopy 0 1] in
   nids (nents (mmap w 1)) = [1; 1].
 Proof. exact node_maps_copy_unregistered_refuted. Qed.
+
+(** Round 3.  The property in one statement.  The premises are exactly the census obligations the check discharges on
+    every run: IDs of entities, brushes, faces, brush groups and visgroups are released only by destructors; every
+    copy site allocates in the destination map; remove_ent keeps node IDs and copies register theirs; the fixup
+    constructor tests positivity and defers re-insertion.  Then, for EVERY history of the nested world (entities with
+    their brushes and faces, world brushes; creation with arbitrary desired IDs, copy within and across maps, removal,
+    re-adding, destruction, collapse_one), of brush groups and of visgroups (IdWorld events incl. parse and collapse),
+    of node entities over several maps, and of the fixup table of any one entity: within every map no two existing
+    entities share an ID, no two brushes, no two faces, no two groups, no two visgroups, no two node IDs, no two
+    replaceNN indexes of the entity — and all of them are positive. *)
+Theorem c08_one_map_all_kinds : ∀ hn hg hv hm fl fo m,
+  release_on_remove KEnt = false → release_on_remove KSolid = false → release_on_remove KFace = false →
+  release_on_remove KGroup = false → release_on_remove KVis = false →
+  copy_to_dest KEnt = true → copy_to_dest KSolid = true → copy_to_dest KFace = true →
+  copy_to_dest KGroup = true → copy_to_dest KVis = true →
+  node_release_on_remove = false → node_copy_registers = true →
+  fixup_init_requires_positive = true → fixup_init_defers_reinsertion = true →
+  let wn := trun (release_on_remove KEnt) (release_on_remove KSolid) (release_on_remove KFace)
+                 (copy_to_dest KEnt) (copy_to_dest KSolid) (copy_to_dest KFace) hn in
+  uniq_pos (live_ids_in m (tE wn)) ∧ uniq_pos (live_ids_in m (tS wn)) ∧ uniq_pos (live_ids_in m (tF wn)) ∧
+  uniq_pos (live_ids_in m (wrun (release_on_remove KGroup) (copy_to_dest KGroup) hg)) ∧
+  uniq_pos (live_ids_in m (wrun (release_on_remove KVis) (copy_to_dest KVis) hv)) ∧
+  uniq_pos (nids (nents (mmap (mrun node_realloc_on_add node_release_on_remove node_release_in_del node_copy_registers hm) m))) ∧
+  FxInv (fx_hist fixup_init_requires_positive fixup_init_defers_reinsertion fl fo).
+Proof. intros hn hg hv hm fl fo m -> -> -> -> -> -> -> -> -> -> -> -> -> ->. exact (all_kinds_unique hn hg hv hm fl fo _ _ m). Qed.
